@@ -135,7 +135,14 @@ def _regions(shape):
         (0, slice(None)), (slice(None), n1 - 1), (slice(0, 1), slice(None)), (slice(None), slice(None)),
         ([0, n0 - 1], 0) if n0 > 1 else ([0], 0), (slice(0, n0), [n1 - 1]), (-1, slice(None)),
         (slice(0, n0 + 1), 0), (n0, slice(None)), (slice(None), slice(1, n1 + 1)),
+        # not ascending: index lists in descending order, negative-step slices (reads only; no growth)
+        ([n0 - 1, 0], slice(None)), (slice(None), [n1 - 1, 0]), (slice(None, None, -1), 0), (slice(None), slice(None, None, -1)),
+        ([n0 - 1, 0], [n1 - 1, 0]) if False else ([n0 - 1, 0], n1 - 1),
     ]
+
+
+NREAD = 7  # catalogue entries usable by both reads and writes (no growth: first 7); entries 10.. are read-only orders
+READ_KEYS = list(range(7)) + [10, 11, 12, 13, 14]
 
 
 @ob("C04", params=[dict(shape=(2, 2), r=r) for r in range(10)] + [dict(shape=(2, 3), r=r, _tier="thorough") for r in range(10)], max_paths=40000,
@@ -154,14 +161,14 @@ def write_region_scalar(E, shape, r):
     _post(E, X if okd else None, S if oks else None, M, "region scalar")
 
 
-@ob("C04", params=[dict(shape=(2, 2), r=r) for r in range(7)] + [dict(shape=(2, 3), r=r, _tier="thorough") for r in range(7)], max_paths=40000,
-    bounds="2-way state (all patterns); region keys from the catalogue (no growth); reads on dense and sparse")
+@ob("C04", params=[dict(shape=(2, 2), r=r) for r in READ_KEYS] + [dict(shape=(2, 3), r=r, _tier=("quick" if r >= 10 else "thorough")) for r in READ_KEYS], max_paths=40000,
+    bounds="2-way state (all patterns); region keys from the catalogue (no growth; incl. descending index lists and negative-step slices); reads on dense and sparse")
 def read_region(E, shape, r):
     """X[region] returns the sub-array of the region (kept modes = slices and lists), dense and sparse alike"""
     X, S, M = _state(E, shape)
     key = _regions(shape)[r]
     lists, keep = M.region_subs(key)
-    want = [M.get(sub) for sub in itertools.product(*reversed(lists))]  # F order: first mode fastest
+    # F order: first mode fastest
     want = [M.get(tuple(reversed(sub))) for sub in itertools.product(*reversed(lists))]
     kshape = tuple(len(l) for l, k in zip(lists, keep) if k)
     okd, gd = E.call(lambda: X[key], "dense region read")
@@ -232,3 +239,51 @@ def write_sequences(E, start):
         if not (okd and oks):
             return
         _post(E, X, S, M, f"step {step}")
+
+
+@ob("C04", params=[dict(form=f) for f in ("lin_int", "lin_slice", "lin_list", "region", "subs")], max_paths=60000, wall_s=1500,
+    bounds="history: 2x2 symbolic state, step 1 grows it by a full-subscript write (entries enumerated in [0,2]), step 2 overwrites through another key form (linear int / linear slice / linear list: dense only; region, subscript array: dense and sparse), symbolic values")
+def write_after_growth(E, form):
+    """growth-then-overwrite through a different key form: the second write lands in the grown tensor"""
+    X, S, M = _state(E, (2, 2))
+    sub = (int(E.int("i", 0, 2)), int(E.int("j", 0, 2)))
+    v = E.real("v")
+    M.set(sub, v)
+    X[sub] = v
+    S[sub] = v
+    _post(E, X, S, M, "growth step")
+    size = int(np.prod(M.shape))
+    w = E.real("w")
+    if form == "lin_int":
+        k = int(E.int("k", -size, size - 1))
+        M.set(M.lin(k), w)
+        X[k] = w
+        _post(E, X, None, M, "linear int after growth")
+    elif form == "lin_slice":
+        a, b = int(E.int("a", 0, size - 1)), int(E.int("b", 0, size))
+        for k in list(range(size))[a:b]:
+            M.set(M.lin(k), w)
+        X[a:b] = w
+        _post(E, X, None, M, "linear slice after growth")
+    elif form == "lin_list":
+        k1, k2 = int(E.int("k1", 0, size - 1)), int(E.int("k2", 0, size - 1))
+        E.assume(k1 != k2)
+        for k in (k1, k2):
+            M.set(M.lin(k), w)
+        X[[k1, k2]] = w
+        _post(E, X, None, M, "linear list after growth")
+    elif form == "region":
+        key = (slice(None), M.shape[1] - 1)
+        for i in range(M.shape[0]):
+            M.set((i, M.shape[1] - 1), w)
+        X[key] = w
+        S[key] = w
+        _post(E, X, S, M, "region after growth")
+    else:
+        rows = [[M.shape[0] - 1, 0], [0, M.shape[1] - 1]]
+        for r in rows:
+            M.set(r, w)
+        subs = np.array(rows)
+        X[subs] = w
+        S[subs] = w
+        _post(E, X, S, M, "subscript array after growth")
